@@ -376,7 +376,13 @@ class Ctx:
         def work(path):
             res = []
             cur = path
-            for attempt in range(max_reject_per_file + 1):
+            # every iteration removes one subject from the file, so the loop ends after at most
+            # (#subjects + 1) strict passes; nothing is ever left unexamined
+            try:
+                nsubj = len({e.get("subject") for e in read_ndjson(path) if e.get("op") == "reset"})
+            except Exception:
+                nsubj = max_reject_per_file
+            for attempt in range(max(max_reject_per_file, nsubj) + 1):
                 r = validate_one(trace_module, cur, timeout=timeout, cfg=cfg, jvm=jvm)
                 r["origin"] = path
                 r["mode"] = "strict"
